@@ -211,7 +211,7 @@ func c10Bit(b bool) string {
 
 var c10Keys = []string{"Subject", "Received", "DKIM-Signature", "From", "To", "Cc", "Message-ID", "Date", "X-Spam-Flag",
 	"TLS-Required", "Content-Type", "MIME-Version", "received", "SUBJECT", "x", "X-!#$%&'*+-.^_`|~", "Authentication-Results",
-	"Content-Transfer-Encoding", "List-Unsubscribe", "X-a.b/c=d?e"}
+	"Content-Transfer-Encoding", "List-Unsubscribe", "X-a.b/c=d?e", "Bcc", "Return-Path", "Delivered-To", "Content-Length", "bcc", "Resent-From"}
 
 func c10GenText(r *vh.Rng) []byte {
 	var b []byte
